@@ -426,12 +426,16 @@ class FunctionLogger:
                     N = self.n_evals[idx]
 
                     # if fsd is not None: # We already in the case of the heteroskedastic noise
-                    tau_n = 1 / self.S[idx] ** 2
-                    tau_1 = 1 / fsd**2
-                    self.Y[idx] = (tau_n * self.Y[idx] + tau_1 * fval_orig) / (
-                        tau_n + tau_1
+                    # precision-weighted mean and combined SD, written with the
+                    # ratios s/hypot so that very small or very large SDs do not
+                    # under/overflow when squared
+                    s_n = self.S[idx]
+                    s_h = np.hypot(s_n, fsd)
+                    self.Y[idx] = (
+                        self.Y[idx] * (fsd / s_h) ** 2
+                        + fval_orig * (s_n / s_h) ** 2
                     )
-                    self.S[idx] = 1 / np.sqrt(tau_n + tau_1)
+                    self.S[idx] = s_n * (fsd / s_h)
                     # else:
                     #    self.y_orig[idx] = (N * self.y_orig[idx] + fval_orig) / (N + 1) # We already checked
 
